@@ -187,6 +187,20 @@ def classify(P, o, cons, adts):
     return None
 
 
+# an enumeration of origins and consumers: the written-out views add nothing to it
+PRIMARY_VIEW_ONLY = True
+
+
+def _family_key(k):
+    import re
+    parts = k.split("|")
+    if len(parts) < 3:
+        return k
+    parts[1] = re.sub(r"::(iter_mut|values_mut|values|keys|into_iter|drain|into_values|into_keys)$", "::iter", parts[1])
+    parts = [p for p in parts if not p.startswith("via ")]
+    return re.sub(r"#\d+$", "", "|".join(parts))
+
+
 def run(P, chk, tier):
     chk.rule(R_ORD, "every hash-order origin reaches only order-insensitive consumers (checked idiom or reviewed table entry keyed on the consumer fingerprint)")
     chk.rule(R_AMB, "every call to an ambient nondeterminism API is tabled")
@@ -227,6 +241,14 @@ def run(P, chk, tier):
             if e is not None:
                 used.add(key)
                 chk.ok(R_ORD, key, where, "table: " + e["reason"])
+                continue
+            # the reviewed fact is about what the consumer does with the elements; it does not depend on which
+            # projection of the map is iterated (iter / values / keys / *_mut) nor on how the same elements are reached
+            # (zip+skip or two next() calls)
+            e2 = [k for k in entries if _family_key(k) == _family_key(key)]
+            if e2:
+                used.add(e2[0])
+                chk.ok(R_ORD, key, where, "table (same consumer, other projection of the container: %s): %s" % (e2[0].split("|")[1], entries[e2[0]]["reason"]))
                 continue
             chk.fail(R_ORD, key, where,
                      "order of a hash-ordered container reaches an order-sensitive or unreviewed consumer (%s %s)"
